@@ -5,15 +5,17 @@
    server's final state.  The registry / counter variables of Contain are driven by the recorded events. *)
 EXTENDS Contain, Json
 
-VARIABLES l, sent, upl
+VARIABLES l, sent, upl,
+          tot    \* cumulative counters of the model: logins, downloads, uploads started, largest registry seen (beyond C03: reported as NOTE only)
 
 Log == ndJsonDeserialize("log.ndjson")
-tvars == <<cvars, l, sent, upl>>
+tvars == <<cvars, l, sent, upl, tot>>
 
 SeqToSet(sq) == {sq[i] : i \in DOMAIN sq}
 Report(what, e, extra) == PrintT(what \o " " \o ToJson([prop |-> "C03", run |-> e.run, line |-> l, op |-> e.op, detail |-> extra]))
 
-Init0 == /\ l = 1 /\ sent = {} /\ upl = 0
+Tot0 == [conns |-> 0, dls |-> 0, uls |-> 0, peak |-> 0]
+Init0 == /\ l = 1 /\ sent = {} /\ upl = 0 /\ tot = Tot0
          /\ pc = <<>> /\ kind = <<>> /\ registry = {} /\ connected = 0 /\ inflight = 0 /\ inLimiter = {} /\ alive = TRUE
 
 Keep == UNCHANGED <<pc, kind, inLimiter>>
@@ -21,27 +23,30 @@ Keep == UNCHANGED <<pc, kind, inLimiter>>
 Ev ==
   LET e == Log[l] IN
   CASE e.op = "world" ->
-         /\ registry' = {} /\ connected' = 0 /\ inflight' = 0 /\ upl' = 0 /\ sent' = {} /\ alive' = TRUE /\ Keep
+         /\ registry' = {} /\ connected' = 0 /\ inflight' = 0 /\ upl' = 0 /\ sent' = {} /\ alive' = TRUE /\ tot' = Tot0 /\ Keep
     [] e.op = "probe" ->
          /\ (~e.ok => Report("VIOL", e, [sig |-> "sentinel-not-answered", tag |-> e.tag, sentinel |-> e.sentinel, ms |-> e.ms]))
-         /\ UNCHANGED <<cvars, sent, upl>>
+         /\ UNCHANGED <<cvars, sent, upl, tot>>
     [] e.op = "Add" ->
          /\ registry' = registry \cup {e.id}
          /\ sent' = IF e.sentinel THEN sent \cup {e.id} ELSE sent
+         /\ tot' = [tot EXCEPT !.peak = IF Cardinality(registry \cup {e.id}) > @ THEN Cardinality(registry \cup {e.id}) ELSE @]
          /\ UNCHANGED <<connected, inflight, alive, upl>> /\ Keep
     [] e.op = "Delete" ->
          /\ registry' = registry \ {e.id}
-         /\ UNCHANGED <<connected, inflight, alive, sent, upl>> /\ Keep
+         /\ UNCHANGED <<connected, inflight, alive, sent, upl, tot>> /\ Keep
     [] e.op = "Inc" ->
          /\ connected' = connected + (IF 0 \in SeqToSet(e.keys) THEN 1 ELSE 0)
          /\ inflight' = inflight + (IF 1 \in SeqToSet(e.keys) THEN 1 ELSE 0)
          /\ upl' = upl + (IF 2 \in SeqToSet(e.keys) THEN 1 ELSE 0)
+         /\ tot' = [tot EXCEPT !.conns = @ + (IF 5 \in SeqToSet(e.keys) THEN 1 ELSE 0), !.dls = @ + (IF 6 \in SeqToSet(e.keys) THEN 1 ELSE 0),
+                               !.uls = @ + (IF 7 \in SeqToSet(e.keys) THEN 1 ELSE 0)]
          /\ UNCHANGED <<registry, alive, sent>> /\ Keep
     [] e.op = "Dec" ->
          /\ connected' = connected - (IF e.key = 0 THEN 1 ELSE 0)
          /\ inflight' = inflight - (IF e.key = 1 THEN 1 ELSE 0)
          /\ upl' = upl - (IF e.key = 2 THEN 1 ELSE 0)
-         /\ UNCHANGED <<registry, alive, sent>> /\ Keep
+         /\ UNCHANGED <<registry, alive, sent, tot>> /\ Keep
     [] e.op = "Final" ->
          LET good == /\ SeqToSet(e.registry) = sent /\ e.connected = Cardinality(sent)
                      /\ e.downloads = 0 /\ e.uploads = 0
@@ -51,15 +56,20 @@ Ev ==
             /\ (~good /\ ~busy => Report("VIOL", e, [sig |-> "not-back-to-baseline", registry |-> e.registry, sentinels |-> sent,
                                            connected |-> e.connected, downloads |-> e.downloads, uploads |-> e.uploads]))
             /\ (~agree /\ ~busy => Report("DRIFT", e, [modelRegistry |-> registry, modelConnected |-> connected, modelDl |-> inflight, modelUl |-> upl]))
-            /\ UNCHANGED <<cvars, sent, upl>>
+            (* beyond C03: the cumulative counters are the numbers of logins / transfers begun; every login also counts
+               as a connection; the recorded peak is never above the largest registry (it is set without a lock, so it
+               may lag behind) *)
+            /\ ("conns" \in DOMAIN e /\ ~busy /\ (e.conns # tot.conns \/ e.dls # tot.dls \/ e.uls # tot.uls \/ e.peak > tot.peak \/ e.peak < 2)
+                  => Report("NOTE", e, [sig |-> "cumulative-counters-differ", model |-> tot, conns |-> e.conns, dls |-> e.dls, uls |-> e.uls, peak |-> e.peak]))
+            /\ UNCHANGED <<cvars, sent, upl, tot>>
     [] e.op = "userlist" ->
          /\ (~(e.ok /\ Len(e.names) = 2) /\ ~("busy" \in DOMAIN e /\ e.busy) => Report("VIOL", e, [sig |-> "user-list-not-back-to-sentinels", ok |-> e.ok, n |-> Len(e.names)]))
-         /\ UNCHANGED <<cvars, sent, upl>>
+         /\ UNCHANGED <<cvars, sent, upl, tot>>
     [] e.op = "exit" ->
          /\ alive' = (e.code = 0 /\ e.fatal = "")
          /\ (~(e.code = 0 /\ e.fatal = "") => Report("VIOL", e, [sig |-> "server-process-terminated", code |-> e.code, fatal |-> e.fatal]))
-         /\ UNCHANGED <<registry, connected, inflight, sent, upl>> /\ Keep
-    [] OTHER -> UNCHANGED <<cvars, sent, upl>>
+         /\ UNCHANGED <<registry, connected, inflight, sent, upl, tot>> /\ Keep
+    [] OTHER -> UNCHANGED <<cvars, sent, upl, tot>>
 
 TNext == /\ l <= Len(Log) /\ Ev /\ l' = l + 1 /\ TLCSet(1, l')
 Consumed == TLCGet(1) = Len(Log) + 1
